@@ -462,3 +462,17 @@ for _p in ("C13", "C03"):
       "        c = self.array[:-1, -1]\n        return np.sqrt(c.dot(c) - self.array[-1, -1] / self.array[0, 0])", "E5.ret", "Sphere")
     V(f"twin: Sphere.radius with the quotient taken after the subtraction ({_p})", _p, CURVE, RAD_OLD,
       "        c = self.array[:-1, -1]\n        k = self.array[0, 0]\n        return np.sqrt((c.dot(c) - self.array[-1, -1] * k) / k**2)", "silent")
+
+
+# ------------------------------------------------------------------------------------------------ index bookkeeping (E13)
+GIM_NEW = '    def _get_index_mapping(self, index: TensorIndex) -> list[int | None]:\n        # maps every axis of self.array[index] to the axis of self.array it comes from (None for a new axis),\n        # following the indexing rules of numpy\n        if not isinstance(index, tuple):\n            index = (index,)\n\n        # every index element as (kind, number of consumed axes, dimension of the index array)\n        elements: list[tuple[str, int, int]] = []\n        for ind in index:\n            if ind is None:\n                elements.append(("newaxis", 0, 0))\n            elif ind is Ellipsis:\n                elements.append(("ellipsis", 0, 0))\n            elif isinstance(ind, slice):\n                elements.append(("slice", 1, 0))\n            elif isinstance(ind, (int, np.integer)):\n                elements.append(("integer", 1, 0))\n            else:\n                index_array = np.asarray(ind)\n                if index_array.dtype == bool:\n                    # a boolean mask consumes one axis per dimension and is equivalent to 1-dimensional index arrays\n                    elements.append(("array", index_array.ndim, 1))\n                else:\n                    elements.append(("array", 1, index_array.ndim))\n\n        # replace the ellipsis by slices and add the omitted slices at the end\n        missing = self.rank - sum(e[1] for e in elements)\n        expanded: list[tuple[str, int, int]] = []\n        for e in elements:\n            if e[0] != "ellipsis":\n                expanded.append(e)\n            elif missing > 0:\n                expanded.extend([("slice", 1, 0)] * missing)\n                missing = 0\n            else:\n                # an ellipsis that stands for no axis still separates the advanced indices on both sides\n                expanded.append(("separator", 0, 0))\n        expanded.extend([("slice", 1, 0)] * missing)\n\n        # integers are advanced indices too as soon as there is an index array\n        array_dims = [e[2] for e in expanded if e[0] == "array"]\n        advanced = [i for i, e in enumerate(expanded) if e[0] == "array" or (len(array_dims) > 0 and e[0] == "integer")]\n        broadcast_ndim = max(array_dims) if len(array_dims) > 0 else 0\n        adjacent = len(advanced) == 0 or advanced == list(range(advanced[0], advanced[-1] + 1))\n\n        index_mapping: list[int | None] = []\n        axis = 0\n        for i, e in enumerate(expanded):\n            if e[0] == "slice":\n                index_mapping.append(axis)\n            elif e[0] == "newaxis":\n                index_mapping.append(None)\n            elif len(advanced) > 0 and adjacent and i == advanced[0]:\n                # the broadcast dimensions of adjacent advanced indices replace them in place\n                index_mapping.extend([None] * broadcast_ndim)\n            axis += e[1]\n\n        if not adjacent:\n            # advanced indices that are separated by a slice or a new axis are moved to the front\n            return [None] * broadcast_ndim + index_mapping\n\n        return index_mapping\n\n'
+GIM_OLD = '    def _get_index_mapping(self, index: TensorIndex) -> list[int | None]:\n        normalized_index = normalize_index(index, self.shape)  # type: ignore[no-untyped-call]\n        advanced_indices = []\n        index_mapping: list[int | None] = list(range(self.rank))\n        i = 0\n        for ind in normalized_index:\n            # axis with integer index will be removed\n            if isinstance(ind, int):\n                index_mapping.pop(i)\n                continue\n\n            # new axis inserted by None index\n            if ind is None:\n                index_mapping.insert(i, None)\n\n            # advanced indexing\n            elif isinstance(ind, np.ndarray):\n                advanced_indices.append(i)\n\n            i += 1\n\n        if len(advanced_indices) == 0:\n            return index_mapping\n\n        b = np.broadcast(*[normalized_index[i] for i in advanced_indices])\n        a0, a1 = advanced_indices[0], advanced_indices[-1]\n\n        if advanced_indices != list(range(a0, a1 + 1)):\n            # create advanced indices in front\n            for i in advanced_indices:\n                index_mapping.remove(i)\n            new_indices: list[int | None] = [None] * b.ndim\n            return new_indices + index_mapping\n        else:\n            # replace indices with broadcast shape\n            return index_mapping[:a0] + [None] * b.ndim + index_mapping[a1 + 1 :]\n\n'
+V("D22 regression: the dask-normalised index mapping with one counter for two index spaces", "C19", BASE, GIM_NEW, GIM_OLD, "E13", "_get_index_mapping",
+  extra=[(BASE, "    is_numerical_scalar,\n    posify_index,", "    is_numerical_scalar,\n    normalize_index,\n    posify_index,")])
+V("index mapping: a mask counted like an integer array", "C19", BASE, '                    elements.append(("array", index_array.ndim, 1))', '                    elements.append(("array", 1, index_array.ndim))', "E13", "_get_index_mapping", quick=True)
+V("index mapping: integers next to arrays not treated as advanced indices", "C19", BASE, "e[0] == \"array\" or (len(array_dims) > 0 and e[0] == \"integer\")]", "e[0] == \"array\"]", "E13", "_get_index_mapping")
+V("index mapping: separated advanced indices appended instead of moved to the front", "C19", BASE, "            return [None] * broadcast_ndim + index_mapping", "            return index_mapping + [None] * broadcast_ndim", "E13", "_get_index_mapping")
+V("index mapping: ellipsis expanded without counting the consumed axes", "C19", BASE, "        missing = self.rank - sum(e[1] for e in elements)", "        missing = self.rank - len([e for e in elements if e[0] != \"newaxis\" and e[0] != \"ellipsis\"])", "E13", "_get_index_mapping")
+V("twin: index mapping with the kinds tested in another order", "C19", BASE, "            if ind is None:\n                elements.append((\"newaxis\", 0, 0))\n            elif ind is Ellipsis:\n                elements.append((\"ellipsis\", 0, 0))",
+  "            if ind is Ellipsis:\n                elements.append((\"ellipsis\", 0, 0))\n            elif ind is None:\n                elements.append((\"newaxis\", 0, 0))", "silent")
+V("index mapping: an ellipsis that stands for no axis does not separate", "C19", BASE, "                expanded.append((\"separator\", 0, 0))", "                pass", "missed")
